@@ -11,6 +11,13 @@ ALL = ["C%02d" % k for k in range(1, 21)]
 
 # property -> claim
 CLAIMS = {
+    "C01": {
+        "category": "exploration",
+        "technique": "reference-model oracle (R-FEEL interpreter) over observed evaluations + metamorphic scope padding",
+        "text": "Seeded typed random expressions of the FEEL core fragment and a forced construct x construct matrix are parsed and evaluated by the real code in scopes bound programmatically; every observed value is compared structurally with an independent reference interpreter (decimal128 arithmetic, three-valued logic, filters, paths, for/some/every products, function invocation) and with the same evaluation in a scope padded with unrelated names and layers. Disagreements are minimised to the smallest closed sub-expression.",
+        "note": "R-FEEL (lib/rfeel.py) is trusted; contested constructs (singleton filter results, non-boolean conditions, incomparable equality inside lists, inexact powers) are counted as undecided, never as violations. Parsing defects of operator nesting are left to C06 (the generator keeps boolean operators out of `between` operands and range end points).",
+        "design_ref": "DESIGN.md §3 C01, §2 R-FEEL",
+    },
     "C09": {
         "category": "exploration",
         "technique": "runtime law monitor over observed evaluations (exhaustive value alphabet + seeded random values)",
